@@ -196,12 +196,25 @@ func (w *World) CheckLifecycle(out *Outcome, o *Obs) []Violation {
 				a := strings.Join(sortedCopy(snap[pt.Field]), ",")
 				b := strings.Join(sortedCopy(o.Points[i.ID][pt.Field]), ",")
 				if a != b {
-					vs = append(vs, v("C05", "populated-after-before-init", i.ID+"."+pt.Field, fmt.Sprintf("%s.%s held [%s] at its first before-initialization callback but [%s] after the start: it was set after initialization began", i.ID, pt.Field, a, b)))
+					vs = append(vs, v("C05", "populated-after-before-init", i.ID+"."+pt.Field, fmt.Sprintf("%s.%s held [%s] when the initialization of %s began (first before-initialization callback / AfterPropertiesSet / Init) but [%s] after the start: it was set after initialization began", i.ID, pt.Field, a, i.ID, b)))
+				}
+			}
+			// ... and complete: a point whose target the resolver model determines holds it already
+			if out.Verdict == MustSucceed && !w.replacedBeforeInstantiation(i.ID) {
+				for _, pt := range t.Points {
+					r := out.Res[i.ID][pt.Field]
+					if r == nil || !pt.Single() || r.Exact == "" || r.DontCare || r.Tied {
+						continue
+					}
+					got := snap[pt.Field]
+					if len(got) != 1 || w.componentOf(got[0]) != r.Exact {
+						vs = append(vs, v("C05", "initialised-before-populated", i.ID+"."+pt.Field, fmt.Sprintf("when the initialization of %s began its point %s held %v; the resolver model determines %s", i.ID, pt.Field, got, r.Exact)))
+					}
 				}
 			}
 			for _, cf := range t.Config {
 				if o.CfgAtBefore[i.ID][cf.Field] != o.Cfg[i.ID][cf.Field] {
-					vs = append(vs, v("C05", "config-set-after-before-init", i.ID+"."+cf.Field, fmt.Sprintf("%s.%s was %q at its first before-initialization callback but %q after the start", i.ID, cf.Field, o.CfgAtBefore[i.ID][cf.Field], o.Cfg[i.ID][cf.Field])))
+					vs = append(vs, v("C05", "config-set-after-before-init", i.ID+"."+cf.Field, fmt.Sprintf("%s.%s was %q when the initialization of the component began but %q after the start", i.ID, cf.Field, o.CfgAtBefore[i.ID][cf.Field], o.Cfg[i.ID][cf.Field])))
 				}
 			}
 		}
